@@ -224,3 +224,34 @@ package ring
 //@ # delegates are user code: they are assumed not to modify the lifecycler object or the ring copy they are handed at registration
 //@ assume func BasicLifecyclerDelegate.OnRingInstanceRegister
 //@   modifies nothing
+//@
+//@ # ---- readiness (C08: "it does not report ready before it is active with tokens and, if so configured, every ring
+//@ # member is active and healthy"); the ring content is whatever the store returns (interface call, arbitrary) ----
+//@ func InstanceDesc.IsReady
+//@   property C08
+//@   ensures result == nil <==> (InstanceDesc.IsHeartbeatHealthy(i, heartbeatTimeout, now) && i.State == ACTIVE)
+//@   pure
+//@ func Desc.IsReady
+//@   property C08
+//@   ensures  all_active_healthy: result == nil ==> (forall n string :: in(n, d.Ingesters) ==> d.Ingesters[n].State == ACTIVE && InstanceDesc.IsHeartbeatHealthy(d.Ingesters[n], heartbeatTimeout, now))
+//@   ensures  some_tokens: result == nil ==> (exists n string :: in(n, d.Ingesters) && len(d.Ingesters[n].Tokens) > 0)
+//@   loop 0 invariant numTokens >= 0 && same(d, old(d))
+//@   loop 0 invariant forall n string :: $visited[n] ==> d.Ingesters[n].State == ACTIVE && InstanceDesc.IsHeartbeatHealthy(d.Ingesters[n], heartbeatTimeout, now)
+//@   loop 0 invariant numTokens > 0 ==> (exists n string :: in(n, d.Ingesters) && len(d.Ingesters[n].Tokens) > 0)
+//@   modifies nothing
+//@ func Lifecycler.checkRingHealthForReadiness
+//@   property C08
+//@   ghost var ringOK bool = false
+//@   ghost var ownOK bool = false
+//@   at after@ring.Desc.IsReady: ringOK := $r0 == nil
+//@   at after@ring.InstanceDesc.IsReady: ownOK := $r0 == nil
+//@   at exit: assert holds_tokens: result == nil ==> len(i.tokens) > 0
+//@   at exit: assert ring_checked: result == nil && i.cfg.ReadinessCheckRingHealth ==> ringOK
+//@   at exit: assert own_entry_checked: result == nil && !i.cfg.ReadinessCheckRingHealth ==> ownOK
+//@   modifies nothing
+//@ func Lifecycler.CheckReady
+//@   property C08
+//@   ghost var checked bool = false
+//@   at after@ring.Lifecycler.checkRingHealthForReadiness: checked := $r0 == nil
+//@   at exit: assert not_before_checks: result == nil ==> old(i).ready || checked
+//@   at exit: assert latch: i.ready ==> old(i).ready || result == nil
